@@ -115,7 +115,8 @@ def observe(text, top=("",), ignore=(), ser=False, module_name="mod", submodules
         finally:
             proj.SPELL = None
     except proj.ProjectionError:
-        raise
+        # an instantiated tree of impossible shape: C02 reports it, the generator checks do not judge the module
+        return {"outcome": "front-exc:impossible-instantiated-tree"}
     except Exception as e:  # noqa: BLE001
         return {"outcome": "front-exc:" + type(e).__name__}
     r = gen.pybind_text(text, module_name=module_name, top=top, ignore=ignore, ser=ser, submodules=submodules, xml=xml)
